@@ -357,8 +357,10 @@ pub fn child_main(args: &Args) -> ! {
                 }
             }
             let _ = std::fs::set_permissions(&case_dir, std::fs::Permissions::from_mode(0o555));
+            // root ignores directory permissions: become an unprivileged user (for anybody else the
+            // mode 0555 of the directory is enough)
             unsafe {
-                if libc::setgid(65534) != 0 || libc::setuid(65534) != 0 {
+                if libc::geteuid() == 0 && (libc::setgid(65534) != 0 || libc::setuid(65534) != 0) {
                     simcore::harness_error("C09: cannot drop privileges for the read-only-directory case");
                 }
             }
